@@ -277,6 +277,10 @@ def m_iter_filter_map(ex, st, a, c, m):
     return [(True, Adt('FilterMapIter', None, [a[0], a[1], ex.closure_text(c)]))]
 
 
+def m_iter_map_while(ex, st, a, c, m):
+    return [(True, Adt('MapWhileIter', None, [a[0], a[1], ex.closure_text(c)]))]
+
+
 def _iter_items(ex, st, it):
     """materialise an iterator value into a list (closures must not fork)."""
     if it.ty == 'Iter':
@@ -299,6 +303,17 @@ def _iter_items(ex, st, it):
                 raise Unsupported('forking closure in filter_map')
             if r[0][1].variant == 'Some':
                 out.append(r[0][1].fields[0])
+        return out
+    if it.ty == 'MapWhileIter':
+        src, clo, clo_text = it.fields
+        out = []
+        for x in _iter_items(ex, st, src):
+            r = ex.call_closure(st, clo_text, clo, [x])
+            if len(r) != 1 or not isinstance(r[0][1], Adt):
+                raise Unsupported('forking closure in map_while')
+            if r[0][1].variant != 'Some':
+                break
+            out.append(r[0][1].fields[0])
         return out
     raise Unsupported('iterator ' + it.ty)
 
@@ -358,9 +373,32 @@ def m_hyph_to_string(ex, st, a, c, m):
     return [(True, f_uuid_hyph(ex.deref(a[0]).fields[0]))]
 
 
+f_verstr = z3.Function('verstr', z3.IntSort(), z3.IntSort(), z3.IntSort(), z3.BoolSort(), StrS)      # Version::to_string of a constructed version
+
+
+def mk_version(maj, mi, pa, pre, src=None):
+    """semver::Version { major, minor, patch, pre, build } (+ the text it was parsed from)"""
+    return Adt('Version', None, [maj, mi, pa, Adt('Prerelease', None, [pre]), Opaque('build'), src])
+
+
 def m_version_parse(ex, st, a, c, m):
     s = sval(ex, a[0])
-    return [(f_sv_ok(s), ok(Adt('Version', None, [s]))), (z3.Not(f_sv_ok(s)), err(Adt('semver::Error', None, [])))]
+    return [(f_sv_ok(s), ok(mk_version(f_sv_maj(s), f_sv_min(s), f_sv_pat(s), f_sv_pre(s), s))), (z3.Not(f_sv_ok(s)), err(Adt('semver::Error', None, [])))]
+
+
+def m_version_new(ex, st, a, c, m):
+    return [(True, mk_version(a[0], a[1], a[2], z3.BoolVal(False)))]
+
+
+def m_version_to_string(ex, st, a, c, m):
+    v = ex.deref(a[0])
+    if v.fields[5] is not None:
+        return [(True, v.fields[5])]
+    return [(True, f_verstr(v.fields[0], v.fields[1], v.fields[2], v.fields[3].fields[0]))]
+
+
+def m_prerelease_is_empty(ex, st, a, c, m):
+    return [(True, z3.Not(ex.deref(a[0]).fields[0]))]
 
 
 def parse_version_req(text):
@@ -443,11 +481,11 @@ def comparator_matches(op, M, N, P, maj, mi, pa):
 
 def m_versionreq_matches(ex, st, a, c, m):
     req = ex.deref(a[0]).fields[0]
-    ver = ex.deref(a[1]).fields[0]
-    maj, mi, pa = f_sv_maj(ver), f_sv_min(ver), f_sv_pat(ver)
+    ver = ex.deref(a[1])
+    maj, mi, pa, pre = ver.fields[0], ver.fields[1], ver.fields[2], ver.fields[3].fields[0]
     terms = [comparator_matches(op, M, N, P, maj, mi, pa) for op, M, N, P in req.a[1]]
     # semver: a version with a pre-release tag only matches if some comparator carries one for the same triple (none here)
-    return [(True, z3.And(z3.Not(f_sv_pre(ver)), *terms))]
+    return [(True, z3.And(z3.Not(pre), *terms))]
 
 
 def m_addr_validate(ex, st, a, c, m):
@@ -1090,7 +1128,8 @@ RAW_MODELS = [
     (r'^uuid::parser::<impl uuid::Uuid>::parse_str$', m_uuid_parse),
     (r'^uuid::fmt::<impl uuid::Uuid>::hyphenated$', m_uuid_hyphenated), (r'^<Hyphenated as ToString>::to_string$', m_hyph_to_string),
     (r'^semver::Version::parse$', m_version_parse), (r'^VersionReq::parse$', m_versionreq_parse), (r'^VersionReq::matches$', m_versionreq_matches),
-    (r'^<semver::Version as ToString>::to_string$', lambda ex, st, a, c, m: [(True, ex.deref(a[0]).fields[0])]),
+    (r'^<semver::Version as ToString>::to_string$', m_version_to_string), (r'^semver::Version::new$', m_version_new),
+    (r'^Prerelease::is_empty$|^semver::Prerelease::is_empty$', m_prerelease_is_empty),
     # --- responses
     (r'^Response::new$', m_response_new), (r'^Response::add_message$', m_add_message), (r'^Response::add_attributes$', m_add_attributes),
     (r'^Response::add_attribute$', m_add_attribute), (r'^attr$', m_attr), (r'^coins$', m_coins), (r'^coin$', m_coin),
@@ -1098,7 +1137,7 @@ RAW_MODELS = [
     (r'^<ContractError as ToString>::to_string$', m_contract_error_to_string),
     # --- iterators / collections
     (r'^<.* as IntoIterator>::into_iter$', m_into_iter), (r'^core::slice::<impl \[.*\]>::iter$', m_slice_iter),
-    (r'^<.* as Iterator>::next$', m_iter_next), (r'^<.* as Iterator>::map$', m_iter_map), (r'^<.* as Iterator>::filter_map$', m_iter_filter_map),
+    (r'^<.* as Iterator>::next$', m_iter_next), (r'^<.* as Iterator>::map$', m_iter_map), (r'^<.* as Iterator>::filter_map$', m_iter_filter_map), (r'^<.* as Iterator>::map_while$', m_iter_map_while),
     (r'^<.* as Iterator>::collect$', m_collect), (r'^<.* as Iterator>::any$', m_any), (r'^<.* as Iterator>::sum$', m_sum_uint128),
     (r'^HashSet::contains$|^core::slice::<impl \[.*\]>::contains$', m_contains), (r'^HashSet::is_subset$', m_is_subset),
     (r'^std::vec::Vec::new$', m_vec_new), (r'^std::vec::Vec::push$', m_vec_push), (r'^std::vec::Vec::len$', m_len),
@@ -1120,4 +1159,220 @@ RAW_MODELS = [
     (r'^<.* as (Clone|ToOwned)>::(clone|to_owned)$', m_clone),
 ]
 
+MODELS = [(re.compile(p), f) for p, f in RAW_MODELS]
+
+
+# ------------------------------------------------------------------ further rust_decimal / std operations (not used at the pinned commit,
+# modelled so that plausible edits are decided rather than reported as unsupported)
+def _round_with(ex, st, x, variant):
+    fake = Adt('RoundingStrategy', variant, [])
+    return m_dec_round(ex, st, [x, z3.IntVal(0), fake], 'round', None)
+
+
+def m_dec_round_default(ex, st, a, c, m):
+    return _round_with(ex, st, a[0], 'MidpointNearestEven')
+
+
+def m_dec_round_dp(ex, st, a, c, m):
+    return m_dec_round(ex, st, [a[0], a[1], Adt('RoundingStrategy', 'MidpointNearestEven', [])], c, m)
+
+
+def m_dec_trunc(ex, st, a, c, m):
+    return _round_with(ex, st, a[0], 'ToZero')
+
+
+def m_dec_floor(ex, st, a, c, m):
+    return _round_with(ex, st, a[0], 'ToNegativeInfinity')
+
+
+def m_dec_ceil(ex, st, a, c, m):
+    return _round_with(ex, st, a[0], 'ToPositiveInfinity')
+
+
+def m_dec_add(ex, st, a, c, m):
+    x, y = dec(ex, a[0]), dec(ex, a[1])
+    if z3.eq(x.fields[1], y.fields[1]):
+        r = Dec(x.fields[0] + y.fields[0], x.fields[1], bool(x.fields[2] or y.fields[2]))
+    else:
+        r = Dec(x.fields[0] * y.fields[1] + y.fields[0] * x.fields[1], z3.simplify(x.fields[1] * y.fields[1]), bool(x.fields[2] or y.fields[2]))
+    return [(True, some(r) if 'checked' in c else r)]
+
+
+def m_dec_sub_op(ex, st, a, c, m):
+    return [(cnd, v.fields[0] if isinstance(v, Adt) and v.ty == 'Option' else v) for cnd, v in m_dec_sub(ex, st, a, c, m)]
+
+
+def m_dec_mul_op(ex, st, a, c, m):
+    return [(cnd, v.fields[0] if isinstance(v, Adt) and v.ty == 'Option' and v.variant == 'Some' else v) for cnd, v in m_dec_mul(ex, st, a, c, m)]
+
+
+def m_dec_div_op(ex, st, a, c, m):
+    out = []
+    for cnd, v in m_dec_div(ex, st, a, c, m):
+        if isinstance(v, Adt) and v.ty == 'Option':
+            v = v.fields[0] if v.variant == 'Some' else PANIC('Decimal division by zero')
+        out.append((cnd, v))
+    return out
+
+
+def m_dec_is_pos(ex, st, a, c, m):
+    return [(True, dec(ex, a[0]).fields[0] >= 0)]
+
+
+def m_dec_abs(ex, st, a, c, m):
+    x = dec(ex, a[0])
+    return [(True, Dec(z3.If(x.fields[0] >= 0, x.fields[0], -x.fields[0]), x.fields[1], x.fields[2]))]
+
+
+def m_dec_minmax(ex, st, a, c, m):
+    x, y = dec(ex, a[0]), dec(ex, a[1])
+    l, r = x.fields[0] * y.fields[1], y.fields[0] * x.fields[1]
+    lt = l < r
+    pick_x = lt if c.endswith('min') else z3.Not(lt)
+    if z3.eq(x.fields[1], y.fields[1]):
+        return [(True, Dec(z3.If(pick_x, x.fields[0], y.fields[0]), x.fields[1], bool(x.fields[2] or y.fields[2])))]
+    return [(pick_x, x), (z3.Not(pick_x), y)]
+
+
+def m_u_checked_mul(ex, st, a, c, m):
+    x, y = uval(ex, a[0]), uval(ex, a[1])
+    return [(x * y < TWO128, ok(U(x * y))), (x * y >= TWO128, err(Adt('OverflowError', None, [])))]
+
+
+def m_u_mul(ex, st, a, c, m):
+    x, y = uval(ex, a[0]), uval(ex, a[1])
+    return [(x * y < TWO128, U(x * y)), (x * y >= TWO128, PANIC('Uint128 mul overflow'))]
+
+
+def m_u_saturating_sub(ex, st, a, c, m):
+    x, y = uval(ex, a[0]), uval(ex, a[1])
+    return [(True, U(z3.If(x >= y, x - y, 0)))]
+
+
+def m_u_minmax(ex, st, a, c, m):
+    x, y = uval(ex, a[0]), uval(ex, a[1])
+    r = z3.If(x < y, x, y) if c.endswith('min') else z3.If(x < y, y, x)
+    v = ex.deref(a[0])
+    return [(True, U(r) if isinstance(v, Adt) else r)]
+
+
+def m_u_add_assign(ex, st, a, c, m):
+    r = a[0]
+    x = ex.read(r.cell, r.path)
+    xv, yv = x.fields[0], uval(ex, a[1])
+    ex.write(r.cell, r.path, U(xv + yv))
+    return [(xv + yv < TWO128, unit()), (xv + yv >= TWO128, PANIC('Uint128 add_assign overflow'))]
+
+
+def m_unwrap_or(ex, st, a, c, m):
+    r = a[0]
+    return [(True, r.fields[0] if r.variant in ('Ok', 'Some') else a[1])]
+
+
+def m_unwrap_or_default(ex, st, a, c, m):
+    r = a[0]
+    if r.variant in ('Ok', 'Some'):
+        return [(True, r.fields[0])]
+    if 'Uint128' in c:
+        return [(True, U(0))]
+    if 'String' in c:
+        return [(True, lit(''))]
+    if 'Vec' in c:
+        return [(True, [])]
+    raise Unsupported('unwrap_or_default for ' + c)
+
+
+def m_is_none(ex, st, a, c, m):
+    return [(True, z3.BoolVal(ex.deref(a[0]).variant == 'None'))]
+
+
+def m_is_ok(ex, st, a, c, m):
+    return [(True, z3.BoolVal(ex.deref(a[0]).variant == 'Ok'))]
+
+
+def m_ok_or_else(ex, st, a, c, m):
+    o = a[0]
+    if o.variant == 'Some':
+        return [(True, ok(o.fields[0]))]
+    return [(cnd, err(v)) for cnd, v in _apply_fn(ex, st, a[1], c, [])]
+
+
+def m_and_then(ex, st, a, c, m):
+    o = a[0]
+    if o.variant in ('None', 'Err'):
+        return [(True, o)]
+    return _apply_fn(ex, st, a[1], c, [o.fields[0]])
+
+
+def m_result_map(ex, st, a, c, m):
+    r = a[0]
+    if r.variant == 'Err':
+        return [(True, r)]
+    return [(cnd, ok(v)) for cnd, v in _apply_fn(ex, st, a[1], c, [r.fields[0]])]
+
+
+def m_unwrap_or_else(ex, st, a, c, m):
+    r = a[0]
+    if r.variant in ('Ok', 'Some'):
+        return [(True, r.fields[0])]
+    return _apply_fn(ex, st, a[1], c, [r.fields[0]] if r.variant == 'Err' else [])
+
+
+def m_as_ref(ex, st, a, c, m):
+    return [(True, ex.deref(a[0]))]
+
+
+def m_all(ex, st, a, c, m):
+    it = ex.deref(a[0])
+    clo_text = ex.closure_text(c)
+    terms = []
+    for x in _iter_items(ex, st, it):
+        r = ex.call_closure(st, clo_text, a[1], [x])
+        if len(r) != 1:
+            raise Unsupported('forking closure in all')
+        terms.append(r[0][1])
+    return [(True, z3.And(*terms) if terms else z3.BoolVal(True))]
+
+
+def m_first_last(ex, st, a, c, m):
+    l = ex.deref(a[0])
+    if not l:
+        return [(True, NONE())]
+    return [(True, some(l[0] if c.endswith('first') else l[-1]))]
+
+
+def m_vec_extend(ex, st, a, c, m):
+    src = ex.deref(a[1])
+    items = _iter_items(ex, st, src) if isinstance(src, Adt) else list(src)
+    ex.deref(a[0]).extend(items)
+    return [(True, unit())]
+
+
+def m_iter_filter(ex, st, a, c, m):
+    raise Unsupported('Iterator::filter over symbolic predicates')
+
+
+RAW_MODELS[:0] = [
+    (r'^rust_decimal::Decimal::round$', m_dec_round_default), (r'^rust_decimal::Decimal::round_dp$', m_dec_round_dp),
+    (r'^rust_decimal::Decimal::trunc$', m_dec_trunc), (r'^rust_decimal::Decimal::floor$', m_dec_floor), (r'^rust_decimal::Decimal::ceil$', m_dec_ceil),
+    (r'^rust_decimal::arithmetic_impls::<impl rust_decimal::Decimal>::checked_add$', m_dec_add),
+    (r'^rust_decimal::arithmetic_impls::<impl (std::ops::)?Add(<.*>)? for rust_decimal::Decimal>::add$|^<rust_decimal::Decimal as (std::ops::)?Add(<.*>)?>::add$', m_dec_add),
+    (r'^rust_decimal::arithmetic_impls::<impl (std::ops::)?Sub(<.*>)? for rust_decimal::Decimal>::sub$|^<rust_decimal::Decimal as (std::ops::)?Sub(<.*>)?>::sub$', m_dec_sub_op),
+    (r'^rust_decimal::arithmetic_impls::<impl (std::ops::)?Mul(<.*>)? for rust_decimal::Decimal>::mul$|^<rust_decimal::Decimal as (std::ops::)?Mul(<.*>)?>::mul$', m_dec_mul_op),
+    (r'^rust_decimal::arithmetic_impls::<impl (std::ops::)?Div(<.*>)? for rust_decimal::Decimal>::div$|^<rust_decimal::Decimal as (std::ops::)?Div(<.*>)?>::div$', m_dec_div_op),
+    (r'^rust_decimal::Decimal::is_sign_positive$', m_dec_is_pos), (r'^rust_decimal::Decimal::abs$', m_dec_abs),
+    (r'^rust_decimal::Decimal::(min|max)$|^<rust_decimal::Decimal as Ord>::(min|max)$', m_dec_minmax),
+    (r'^Uint128::checked_mul$', m_u_checked_mul), (r'^<Uint128 as std::ops::Mul>::mul$', m_u_mul), (r'^Uint128::saturating_sub$', m_u_saturating_sub),
+    (r'^<(Uint128|u128) as Ord>::(min|max)$|^std::cmp::(min|max)$|^Uint128::(min|max)$', m_u_minmax),
+    (r'^<Uint128 as AddAssign>::add_assign$', m_u_add_assign),
+    (r'^Result::unwrap_or$|^std::option::Option::unwrap_or$', m_unwrap_or),
+    (r'^Result::unwrap_or_default$|^std::option::Option::unwrap_or_default$', m_unwrap_or_default),
+    (r'^std::option::Option::is_none$', m_is_none), (r'^Result::is_ok$', m_is_ok),
+    (r'^std::option::Option::ok_or_else$', m_ok_or_else), (r'^std::option::Option::and_then$|^Result::and_then$', m_and_then),
+    (r'^Result::map$', m_result_map), (r'^Result::unwrap_or_else$|^std::option::Option::unwrap_or_else$', m_unwrap_or_else),
+    (r'^Result::expect$|^std::option::Option::expect$', m_unwrap),
+    (r'^std::option::Option::as_ref$|^Result::as_ref$|^std::option::Option::as_mut$|^std::option::Option::as_deref$', m_as_ref),
+    (r'^<.* as Iterator>::all$', m_all), (r'^core::slice::<impl \[.*\]>::(first|last)$', m_first_last),
+    (r'^std::vec::Vec::extend$|^<std::vec::Vec<.*> as Extend<.*>>::extend$', m_vec_extend),
+]
 MODELS = [(re.compile(p), f) for p, f in RAW_MODELS]
